@@ -101,6 +101,31 @@ pub fn line(toks: &[&str]) -> String {
             Ok(d) => rt(d, seed, |a, b| a == b), Err(e) => format!("E:{:?}", e) },
         ("tree", "f64") => match WeightedTreeIndex::new(ps.iter().map(|s| f64::from_hex(s)).collect::<Vec<f64>>()) {
             Ok(d) => rt(d, seed, |a, b| a == b), Err(e) => format!("E:{:?}", e) },
+        // treeh: a tree REACHED BY A HISTORY (update to zero / to a new weight, push, pop derived from the seed) - also a valid value
+        ("treeh", "f64") => match WeightedTreeIndex::new(ps.iter().map(|s| f64::from_hex(s)).collect::<Vec<f64>>()) {
+            Ok(mut d) => {
+                let mut st = seed ^ 0x7ee;
+                for _ in 0..(4 + (crate::samp::splitmix(&mut st) % 12)) {
+                    let r = crate::samp::splitmix(&mut st);
+                    let n = d.len().max(1);
+                    let i = (r >> 8) as usize % n;
+                    let w = ((r >> 24) % 100) as f64 / 10.0;
+                    match r % 8 { 0 | 1 | 2 => { let _ = d.update(i, 0.0); } 3 | 4 | 5 => { let _ = d.update(i, w); } 6 => { let _ = d.push(w); } _ => { if d.len() > 2 { d.pop(); } } }
+                }
+                rt(d, seed, |a, b| a == b) }
+            Err(e) => format!("E:{:?}", e) },
+        ("treeh", "u32") => match WeightedTreeIndex::new(ps.iter().map(|s| s.parse::<u32>().unwrap()).collect::<Vec<u32>>()) {
+            Ok(mut d) => {
+                let mut st = seed ^ 0x7ee;
+                for _ in 0..(4 + (crate::samp::splitmix(&mut st) % 12)) {
+                    let r = crate::samp::splitmix(&mut st);
+                    let n = d.len().max(1);
+                    let i = (r >> 8) as usize % n;
+                    let w = ((r >> 24) % 1000) as u32;
+                    match r % 8 { 0 | 1 | 2 => { let _ = d.update(i, 0); } 3 | 4 | 5 => { let _ = d.update(i, w); } 6 => { let _ = d.push(w); } _ => { if d.len() > 2 { d.pop(); } } }
+                }
+                rt(d, seed, |a, b| a == b) }
+            Err(e) => format!("E:{:?}", e) },
         (_, "f32") => cont::<f32>(family, &ps, seed),
         (_, "f64") => cont::<f64>(family, &ps, seed),
         _ => format!("badtype:{}", ty),
